@@ -143,7 +143,9 @@ def register(reg):
     h2_op("increment_flow_control_window", argnames=("increment", "stream_id"))
     h2_op("send_data", argnames=("stream_id", "data"))
     h2_op("end_stream", argnames=("stream_id",))
-    h2_op("acknowledge_received_data", argnames=("acknowledged_size", "stream_id"))
+    # acknowledge_received_data feeds no input to h2's state machines: it only raises ValueError for a
+    # stream id <= 0 or a negative size (h2/connection.py), which event fields never are
+    h2_op("acknowledge_received_data", raises=False, argnames=("acknowledged_size", "stream_id"))
 
     @reg.method(X, "send_headers")
     def send_headers(it, st, self_v, args, kwargs, node):
